@@ -11,7 +11,8 @@ BASELINE = ("cd /repo && env -u PYTHON_MYPY_VERIF /venv/bin/python -m pytest -ra
 CHECKS = {
     "C02": ("model_checking",
             "explicit-state BFS to closure over (source tree, cache dir) states of the real build",
-            "Every reachable (files, cache) state of 9 closed universes x 4 store/format configs under an owned "
+            "Every reachable (files, cache) state of 16 closed universes (diamond, indirect deps, type lists, cycles, packages, "
+            "namespace packages appearing, stubs, path switches, ...) x 4 store/format configs under an owned "
             "clock, every alphabet edit from every state, real mypy.build.build per transition, oracle = cold run. "
             "Closure means unbounded history depth inside the universe; a monotone-clock lane covers all histories "
             "to a stated depth.",
@@ -30,11 +31,17 @@ CHECKS = {
             "Every flag of mypy.main.define_options() (introspected), plus value-carrying flags with corpus values and "
             "[mypy]/[mypy-module] config spellings, toggled in both directions between two (T: three) runs sharing a cache, "
             "on every corpus program that uses the flag and a generic witness set; compared with a cold run of the last "
-            "option set. Only (program, option) pairs whose cold outputs differ count (witness).",
+            "option set. Only (program, option) pairs whose cold outputs differ count (witness). Further lanes: every "
+            "per-module option through 4 section shapes on an imported package module, every error code through "
+            "--disable/--enable-error-code on top of a config base with per-module sections, follow_imports for every ordered "
+            "value pair globally and per module (ignored import, import of an import, package / submodule / ancestor, "
+            "submodule as the command-line target), --shadow-file with same-size and other-size shadow files.",
             "fixture stubs on both sides; options without a witness program are listed as coverage gaps", "4/C09"),
     "C03": ("model_checking",
             "exhaustive edit-history tree (depth-bounded) on the real dmypy Server, fork-cloned at every node",
-            "ALL legal single-file-edit histories up to depth 3 (Q) / 4-5 (T) over 9 universes x {follow_imports=error with "
+            "ALL legal single-file-edit histories (incl. edits not followed by a check) up to depth 2-3 (Q) / 3-4 (T) from "
+            "every initial file state at distance <= 1, over 14 universes (diamond, indirect deps, chains, packages, stubs, a "
+            "module appearing with a blocker, type guards, protocol notes, ...) x {follow_imports=error with "
             "all files, follow_imports=normal with the root only, start from a fine-grained cache} x {check, cmd_recheck}; "
             "the real Server answers after every edit and every node is compared with a non-incremental build of that "
             "node's files. A self-test asserts the fork-cloned tree observes what a straight-line replay observes.",
@@ -105,8 +112,9 @@ CHECKS = {
     "C01": ("exploration",
             "exhaustive enumeration of a typed program grammar, each accepted program executed on all inputs",
             "Six generated families (narrowing: 22 declared types x 52 guards x 12 control shapes x uses; operators over all "
-            "ordered type pairs; calls/generics/overloads; joins; classes/dataclasses/enums/protocols; control flow) = 90k "
-            "(Q) / 306k (T) functions type-checked by the real build (bundled typeshed); every ACCEPTED function is run "
+            "ordered type pairs; calls/generics/overloads incl. keyword-only / positional-only callees and splats; joins; "
+            "classes/dataclasses/enums/protocols; control flow incl. nested exception frames, each entered with the local at "
+            "its declared and at a narrowed type) = 103k (Q) / 320k (T) functions type-checked by the real build (bundled typeshed); every ACCEPTED function is run "
             "by CPython on every argument tuple of its value domains with recording probes: no TypeError/AttributeError "
             "from generated code, every observed value is a member of the static type of its probe, no probe executes in "
             "code mypy treated as unreachable. Rejected functions are the single-edit ill-typed perturbations.",
@@ -116,8 +124,10 @@ CHECKS = {
             "exhaustive differential enumeration: compiled extension vs the same source interpreted",
             "Families generated from the primitive registry (all 351 entries introspected), all call shapes <=3 actuals "
             "against all signatures <=3 parameters x 5 callee kinds, try/finally clause-action products, generator "
-            "step scripts, closures, (T) loops over every iterable kind, native class hierarchies/layouts, in opt 0/3 and "
-            "single/multi_file/separate layouts; every case is evaluated in the mypyc-compiled module (built from the "
+            "step scripts, closures, all 584 single-inheritance class chains of depth <= 3 x module placements x "
+            "single / multi_file / separate layouts, 330 evaluation-order forms (every operand position of every registered "
+            "specialiser and of short-circuit / display / call / statement contexts tagged and made to raise in turn), (T) "
+            "loops over every iterable kind, native class features, in opt 0/3; every case is evaluated in the mypyc-compiled module (built from the "
             "working tree incl. lib-rt) and in CPython: same value+type, same exception type (message only for "
             "program-raised exceptions), same stdout, same mutation of passed-in objects; a signal is a violation.",
             "documented differences only (differences_from_python.rst); ill-typed calls are not generated", "4/C05"),
@@ -127,7 +137,9 @@ CHECKS = {
             "generated family is compiled by the real pipeline and checked twice (after refcount insertion and on the final "
             "IR) by a path-based abstract interpretation whose transfer functions come only from the op objects "
             "(is_borrowed, stolen(), sources(), error kinds, Inc/DecRef): over-release, leak on any return/error path, use "
-            "after release, undefined read, NULL use. Conformance: compiled generated functions are executed on tracked "
+            "after release, undefined read, NULL use; plus the documented handler-edge rule on the real get_cfg output. "
+            "Generated families: net-neutral functions, multi-steal (31 stealing constructs x operand multiset shapes x 16 "
+            "provenances), nested protected regions (outer region x inner try x first assignment x readers). Conformance: compiled generated functions are executed on tracked "
             "objects (refcount deltas, weakref census, PYTHONMALLOC=debug, signals) and all 32 assignment-subset "
             "undefined-read programs are compared with CPython.",
             "lib-rt's declared steal/borrow contracts are trusted statically (checked only dynamically)", "4/C06"),
@@ -150,7 +162,8 @@ CHECKS = {
             "exhaustive enumeration of a definition grammar x stubgen modes against four oracles",
             "Every element of a definition grammar (all 149 parameter-kind sequences x default forms x annotation modes, "
             "annotation spellings, classes/properties/static/class methods, dataclasses, enums, NamedTuple and TypedDict in "
-            "both syntaxes, overloads, old-style and PEP 695 generics, aliases, conditional definitions, __all__ variants, "
+            "both syntaxes, overloads, old-style and PEP 695 generics, aliases, conditional definitions, 15 __all__ variants "
+            "over a plain body and over a body with decorated non-exported definitions first, "
             "relative imports) x {--parse-only, default, --inspect-mode} through the real stubgen; oracles: ast.parse, mypy "
             "on the stub alone (bundled typeshed), stubtest against the imported runtime module, and a structural "
             "comparison of names and spelled-out annotations. Every signature is re-run with its element alone.",
@@ -160,8 +173,9 @@ CHECKS = {
             "exhaustive metamorphic enumeration: all subsets of error lines x ignore kinds, all codes disabled, vs a reference model",
             "For every single-step corpus program (Q: 12 seed-selected check-*.test files, T: all 99): every subset of its "
             "annotatable error lines (all when <=5, else size <=2 + full) x {bare, exact code, super-code, wrong code, two "
-            "codes} x unused-ignore reporting off/on, and every error code present disabled globally / per-module / "
-            "re-enabled / via its super-code; expected output from a ~60-line model over the baseline run's ErrorInfo objects "
+            "codes} x unused-ignore reporting off/on, every error code present disabled globally / per-module / "
+            "re-enabled / via its super-code, and every ABSENT code of a 14-code probe list disabled (all at once, per module, "
+            "one by one: output must not change); expected output from a ~60-line model over the baseline run's ErrorInfo objects "
             "(origin span, code, sub_code_of, blocker, parent notes), rendered by mypy's own sort/format pipeline; exit "
             "status 0/1/2 rule through mypy.main.main.",
             "fixture stubs; lines where appending a comment changes the token structure are skipped and counted", "4/C13"),
@@ -178,7 +192,8 @@ CHECKS = {
             "For every corpus program of the slice (Q: 8 seed-selected check-*.test files up to 800 mutants each; T: all "
             "9583 programs of check-*, semanal-*, fine-grained*) EVERY delete / duplicate / swap-with-next of each "
             "top-level or class-level statement (T: also renames, type-expression swaps, truncations, mutual references, "
-            "pairs of mutations) is run through the real mypy.main.main with the bundled typeshed (fresh child, warm "
+            "pairs of mutations), and EVERY placement of 34 context-sensitive statements and 8 expressions into 27 "
+            "suite / expression contexts nested to depth 2 (18 858 programs), is run through the real mypy.main.main with the bundled typeshed (fresh child, warm "
             "stdlib cache copy) and as original -> mutant -> original edits through a real dmypy Server: exit status in "
             "{0,1,2}, no INTERNAL ERROR / traceback / malformed line / hang, daemon alive and answering the original "
             "program as before. Every witness is re-run through the real `python -m mypy` / dmypy before it is reported.",
